@@ -22,6 +22,7 @@ use lance::dataset::optimize::{commit_compaction, compact_files, plan_compaction
 use lance::dataset::transaction::Operation;
 use lance::Dataset;
 use lance_file::version::LanceFileVersion;
+use lance_index::DatasetIndexExt;
 use lance_table::format::Fragment;
 use lance_table::io::deletion::read_deletion_file;
 use serde_json::json;
